@@ -8,7 +8,7 @@ use crate::monitor::Monitor;
 use crate::net::{IoCfg, Net};
 use crate::peer::*;
 use crate::prog::*;
-use crate::t1::{check_fidelity, client_main, fnv, server_main, FatalFault, RunOut, Shared, SharedRef, T1Plan};
+use crate::t1::{check_fidelity, client_main, fnv, server_main, CtlAction, FatalFault, RunOut, Shared, SharedRef, T1Plan};
 use crate::tape::{Lane, Tape};
 use crate::wire::*;
 use std::collections::BTreeMap;
@@ -30,6 +30,9 @@ pub enum T2Kind {
     Corrupt,
     /// SETTINGS / PING bursts while E's writer is blocked
     AckPressure,
+    /// E (server) shuts down gracefully at an arbitrary moment of a legal exchange while
+    /// keep-alive pings are in flight; the peer never closes first
+    Graceful,
     /// discard paths followed by a window exhaustion probe
     Exhaust,
 }
@@ -80,6 +83,12 @@ pub struct T2Plan {
     pub flood: Option<&'static str>,
     /// the follow-up stream that must still work after a contained stream error
     pub followup: Option<u32>,
+    /// control actions of E's application (Graceful kind)
+    pub e_actions: Vec<CtlAction>,
+    /// user pings sent by E's application: (count, yields between pings)
+    pub e_pings: Option<(u32, u32)>,
+    /// streams the peer opens only after the shutdown handshake has completed
+    pub late_streams: Vec<u32>,
 }
 
 fn simple_server_prog(t: &Tape) -> ServerStreamProg {
@@ -190,7 +199,7 @@ pub fn draw_t2(t: &Tape, p: &T2Profile) -> T2Plan {
     sp.send_buffer = false;
     let mut ecfg = draw_epcfg(t, &sp);
     ecfg.initial_max_send_streams = None;
-    let legalish = matches!(p.kind, T2Kind::Legal | T2Kind::Violation | T2Kind::Malformed | T2Kind::Hpack | T2Kind::AckPressure | T2Kind::Exhaust);
+    let legalish = matches!(p.kind, T2Kind::Legal | T2Kind::Violation | T2Kind::Malformed | T2Kind::Hpack | T2Kind::AckPressure | T2Kind::Exhaust | T2Kind::Graceful);
     if legalish {
         ecfg.data_frame_budget = Some(usize::MAX / 4);
         ecfg.max_local_error_reset_streams = Some(None);
@@ -232,6 +241,7 @@ pub fn draw_t2(t: &Tape, p: &T2Profile) -> T2Plan {
             pend_flush: *t.pick(Lane::Cfg, &[0u32, 10]),
             pend_shutdown: *t.pick(Lane::Cfg, &[0u32, 30]),
             vectored: t.chance(Lane::Cfg, 1, 2),
+            pend_write_alt: t.chance(Lane::Cfg, 1, 6),
         }
     } else {
         IoCfg::benign()
@@ -259,6 +269,9 @@ pub fn draw_t2(t: &Tape, p: &T2Profile) -> T2Plan {
         probe_stream: None,
         flood: None,
         followup: None,
+        e_actions: vec![],
+        e_pings: None,
+        late_streams: vec![],
     };
     let exotic = matches!(p.kind, T2Kind::Hpack);
     // ---- the legal skeleton
@@ -318,6 +331,42 @@ pub fn draw_t2(t: &Tape, p: &T2Profile) -> T2Plan {
                 plan.script.push(PeerOp::Barrier);
                 plan.script.push(PeerOp::Fin);
             }
+        }
+        T2Kind::Graceful => {
+            plan.label = "graceful".into();
+            // E's application: keep-alive pings throughout, graceful_shutdown at some moment
+            if t.chance(Lane::Work, 3, 4) {
+                plan.e_pings = Some((10 + t.draw(Lane::Work, 60), *t.pick(Lane::Work, &[0u32, 0, 1, 5, 30])));
+            }
+            plan.e_actions.push(CtlAction { side: 1, after_yields: *t.pick(Lane::Work, &[0u32, 3, 10, 30, 100, 300, 1000]), ctl: Ctl::Graceful });
+            if t.chance(Lane::Work, 1, 4) {
+                plan.e_actions.push(CtlAction { side: 1, after_yields: t.draw(Lane::Work, 200), ctl: Ctl::Graceful });
+            }
+            // more streams, spread out, so that the GOAWAYs land between and inside them
+            for i in 0..t.draw(Lane::Peer, 5) {
+                plan.script.push(PeerOp::Pause(t.draw(Lane::Peer, 60)));
+                let sid = next_id;
+                next_id += 2;
+                known.push(sid);
+                let eos = t.chance(Lane::Peer, 1, 2);
+                let head = request_msg(t, &format!("/g{}/{}", i, t.draw(Lane::Peer, 1000)), *t.pick(Lane::Peer, &["GET", "POST"]), &gen_headers(t, 3, 300), false);
+                let body = if eos { None } else { Some(gen_bodyspec(t, 20_000, true, e_iws)) };
+                plan.script.push(PeerOp::Open { sid, head, eos, body });
+            }
+            plan.script.push(PeerOp::Drain);
+            // quiescent: the shutdown handshake is over
+            plan.script.push(PeerOp::Barrier);
+            for _ in 0..t.draw(Lane::Peer, 3) {
+                let sid = next_id;
+                next_id += 2;
+                plan.late_streams.push(sid);
+                let eos = t.chance(Lane::Peer, 1, 2);
+                let head = request_msg(t, "/late", "GET", &vec![], false);
+                let body = if eos { None } else { Some(gen_bodyspec(t, 2000, true, e_iws)) };
+                plan.script.push(PeerOp::Open { sid, head, eos, body });
+            }
+            plan.script.push(PeerOp::Barrier);
+            // no Fin: the peer keeps its side open; E has to close
         }
         T2Kind::Hpack => {
             plan.label = "hpack-valid".into();
@@ -1132,8 +1181,9 @@ pub fn run_t2(profile: &T2Profile, tape: Tape, want_sample: bool) -> RunOut {
         cprogs: plan.cprogs.clone(),
         sprogs: plan.sprogs.clone(),
         fatal: FatalFault::None,
-        actions: vec![],
-        pings: [0, 0],
+        actions: plan.e_actions.clone(),
+        pings: [0, plan.e_pings.map(|p| p.0).unwrap_or(0)],
+        ping_gap: plan.e_pings.map(|p| p.1),
         hold_main_sr: 0,
         accept_delay: plan.accept_delay,
     });
@@ -1145,11 +1195,24 @@ pub fn run_t2(profile: &T2Profile, tape: Tape, want_sample: bool) -> RunOut {
         exec.spawn("s:conn", server_main(ctx.clone(), eio, t1plan.clone(), ctl.clone(), shared.clone()))
     };
     let _ = e_task;
+    if !plan.e_actions.is_empty() {
+        let acts = plan.e_actions.clone();
+        let q = ctl.clone();
+        exec.spawn("s:ctl", async move {
+            for a in acts {
+                for _ in 0..a.after_yields {
+                    crate::exec::yield_now().await;
+                }
+                q.send(a.ctl.clone());
+            }
+        });
+    }
     // the peer
     let pio = net.io(p_side, IoCfg::benign(), tape.clone());
     let mut peer = Peer::new(plan.e_client, pio, hist.clone(), tape.clone(), plan.peer_settings.clone(), plan.grant);
     peer.script = plan.script.iter().cloned().collect();
     peer.resp_plans = plan.resp_plans.clone();
+    peer.snapshot_streams = profile.kind == T2Kind::Graceful;
     let obs = peer.obs.clone();
     let barriers = peer.barriers.clone();
     exec.spawn("p:peer", PeerFuture(peer));
@@ -1169,7 +1232,12 @@ pub fn run_t2(profile: &T2Profile, tape: Tape, want_sample: bool) -> RunOut {
     let mut max_seen = crate::t2x::Maxima::default();
     let mut heal_pending = plan.stall_e_writes;
 
+    let budget_mark_step = exec.cfg.max_steps / 4 * 3;
+    let mut budget_mark_bytes = 0u64;
     let outcome = loop {
+        if exec.step == budget_mark_step {
+            budget_mark_bytes = hist.app_bytes();
+        }
         let o = exec.step_once();
         let ent = match o {
             StepOutcome::Ran(e) => e,
@@ -1251,7 +1319,13 @@ pub fn run_t2(profile: &T2Profile, tape: Tape, want_sample: bool) -> RunOut {
     }
     match &outcome {
         StepOutcome::Livelock(t) => violations.push(Violation::new("C08", "busy-loop", t.split(':').next().unwrap_or("").to_string(), format!("[{}] no transport or API progress for {} steps; last task {}", plan.label, exec.cfg.livelock_limit, t), step)),
-        StepOutcome::StepBudget => violations.push(Violation::new("C08", "step-budget", "", format!("[{}] run did not finish within {} steps", plan.label, exec.cfg.max_steps), step)),
+        StepOutcome::StepBudget => {
+            if hist.app_bytes() > budget_mark_bytes {
+                hist.probe("step_budget_exhausted_while_delivering");
+            } else {
+                violations.push(Violation::new("C08", "step-budget", "", format!("[{}] run did not finish within {} steps and delivered no body byte during the last quarter of them", plan.label, exec.cfg.max_steps), step));
+            }
+        }
         _ => {}
     }
     let o = obs.lock().unwrap().clone();
@@ -1286,6 +1360,47 @@ pub fn run_t2(profile: &T2Profile, tape: Tape, want_sample: bool) -> RunOut {
                     }),
                     step,
                 ));
+            }
+        }
+    }
+    // C15 (Graceful kind): the two-step shutdown completes although keep-alive pings are in
+    // flight, the final last-stream-id covers exactly what the application got, later
+    // streams are not processed, and E closes the connection once it has drained
+    if profile.kind == T2Kind::Graceful && quiescent {
+        let (accepts, graceful) = hist.with(|h| (h.accept_step.clone(), h.graceful.clone()));
+        let e_tasks_left: Vec<&(String, String)> = unfinished.iter().filter(|(n, _)| n != "s:conn").collect();
+        let clean = err_goaway.is_none() && !o.read_err && !matches!(conn_res, Some(Err(_)));
+        if !graceful.is_empty() && clean && !o.window_blocked {
+            hist.probe("t2_graceful_checked");
+            let finals: Vec<&(u32, u32, Vec<u8>)> = o.goaway_from_e.iter().filter(|g| g.0 != 0x7fff_ffff).collect();
+            if e_tasks_left.is_empty() {
+                if finals.is_empty() {
+                    violations.push(Violation::new("C15", "graceful-shutdown-final-goaway-missing", "", format!("[{}] server called graceful_shutdown at step {}; quiescent with every stream finished, GOAWAYs seen by the peer: {:?}", plan.label, graceful[0].1, o.goaway_from_e), step));
+                }
+                if !conn_done || !o.eof_from_e {
+                    violations.push(Violation::new("C15", "graceful-shutdown-not-closed-when-drained", "t2", format!("[{}] server called graceful_shutdown at step {}; quiescent with every stream finished but the connection is still open (future finished: {}, EOF seen by the peer: {}, GOAWAYs {:?})", plan.label, graceful[0].1, conn_done, o.eof_from_e, o.goaway_from_e), step));
+                }
+            }
+            if let Some(last) = finals.last().map(|g| g.0) {
+                for (sid, _) in &accepts {
+                    if *sid > last {
+                        violations.push(Violation::new("C15", "goaway-last-id-below-accepted-stream", "t2", format!("[{}] final GOAWAY last-stream-id {} but stream {} was handed to the application", plan.label, last, sid), step));
+                    }
+                }
+                for sid in &plan.late_streams {
+                    let e_sent = o.streams.get(sid).map(|s| s.e_hdr || s.e_end).unwrap_or(false);
+                    if *sid > last && (accepts.contains_key(sid) || e_sent) {
+                        violations.push(Violation::new("C15", "stream-above-goaway-processed", "t2", format!("[{}] stream {} was opened after the final GOAWAY(last={}) had been sent and was processed (accepted: {}, answered: {})", plan.label, sid, last, accepts.contains_key(sid), e_sent), step));
+                    }
+                }
+                // every stream at or below the cut-off was handed over and ended by E
+                if conn_done {
+                    for (sid, ps) in &o.streams {
+                        if ps.opened_by_peer && *sid <= last && !plan.late_streams.contains(sid) && !(ps.e_end || ps.e_rst.is_some()) && !ps.p_rst {
+                            violations.push(Violation::new("C15", "stream-below-goaway-not-completed", "t2", format!("[{}] stream {} <= last-stream-id {} was neither completed nor reset by E before it closed (accepted: {})", plan.label, sid, last, accepts.contains_key(sid)), step));
+                        }
+                    }
+                }
             }
         }
     }
@@ -1455,7 +1570,9 @@ pub fn run_t2(profile: &T2Profile, tape: Tape, want_sample: bool) -> RunOut {
         hist.with(|h| {
             for (sid, s) in &h.streams {
                 let d = &s.dirs[0];
-                if d.s_head.is_some() && d.r_head.is_none() && sid % 2 == 1 && d.s_abort.is_none() {
+                // streams above the last-stream-id of a GOAWAY that E sent are not processed
+                let cutoff = o.goaway_from_e.iter().map(|g| g.0).min().unwrap_or(u32::MAX);
+                if d.s_head.is_some() && d.r_head.is_none() && sid % 2 == 1 && d.s_abort.is_none() && *sid <= cutoff {
                     violations.push(Violation::new(
                         if profile.kind == T2Kind::Hpack { "C11" } else if profile.kind == T2Kind::Malformed { "C13" } else { "C09" },
                         "valid-message-not-delivered",
